@@ -1433,11 +1433,15 @@ func (c *Client) sendSingleMsg(client *smtp.Client, message *Msg) error {
 	}
 	writer, err := client.Data()
 	if err != nil {
-		return &SendError{
+		retError := &SendError{
 			Reason: ErrSMTPData, errlist: []error{err}, isTemp: isTempError(err),
 			affectedMsg: message, errcode: errorCode(err),
 			enhancedStatusCode: enhancedStatusCode(err, escSupport),
 		}
+		if resetSendErr := client.Reset(); resetSendErr != nil {
+			retError.errlist = append(retError.errlist, resetSendErr)
+		}
+		return retError
 	}
 	_, err = message.WriteTo(writer)
 	if err != nil {
